@@ -399,16 +399,16 @@ def searcher(ctx, cfg, b, w_impl, pred_impl, rec):
                 or (np.abs(dup[0] - pred_impl[1]) > tolb[1]).any() or (np.abs(dup[3] - pred_impl[1]) > tolb[1]).any():
             ctx.violation(key + "|batch", "a query row's value depends on the other rows of the batch",
                           replay_of(cfg, b, {"perm": perm.tolist()}))
-    # many query rows (more than any plausible internal block, not a multiple of a power of two): row i belongs to query i
+    # many query rows (5000: more than any plausible internal block of 1024 / 2048 / 4096 rows and not a multiple of one): row i belongs to query i
     if cfg["id"] % 5 == 1 and Xq.shape[0] > 1:
-        idxb = np.random.default_rng(cfg["seed"] + 7).integers(0, Xq.shape[0], size=1100)
+        idxb = np.random.default_rng(cfg["seed"] + 7).integers(0, Xq.shape[0], size=5000)
         big = col2(call(Xq[idxb]))
         devb = np.abs(big - pred_impl[idxb])
-        if big.shape[0] != 1100 or (devb > 2 * tol_ro[idxb]).any():
-            ib = int(np.argmax((devb - 2 * tol_ro[idxb]).max(axis=1))) if big.shape[0] == 1100 else -1
-            ctx.violation(key + "|many-rows", "among 1100 query rows, a row's value differs from the value of the same row in a small batch",
-                          replay_of(cfg, b, {"rows": "Xnew[default_rng(seed + 7).integers(0, len(Xnew), 1100)]", "first_bad_row": ib,
-                                             "max_difference": float(devb.max()) if big.shape[0] == 1100 else "shape"}))
+        if big.shape[0] != 5000 or (devb > 2 * tol_ro[idxb]).any():
+            ib = int(np.argmax((devb - 2 * tol_ro[idxb]).max(axis=1))) if big.shape[0] == 5000 else -1
+            ctx.violation(key + "|many-rows", "among 5000 query rows, a row's value differs from the value of the same row in a small batch",
+                          replay_of(cfg, b, {"rows": "Xnew[default_rng(seed + 7).integers(0, len(Xnew), 5000)]", "first_bad_row": ib,
+                                             "max_difference": float(devb.max()) if big.shape[0] == 5000 else "shape"}))
     # history: one NumPy buffer refilled in place between two calls - the second answer is about the buffer's CURRENT rows
     buf = np.array(Xq, dtype=float, copy=True)
     call(buf)
